@@ -125,6 +125,9 @@ func (c *Catalog) alterTableSetSchema(stmt *ast.AlterTableSetSchemaStmt) error {
 	if _, _, err := newSchema.getTable(stmt.Table); err == nil {
 		return sqlerr.RelationExists(stmt.Table.Name)
 	}
+	if _, _, err := newSchema.getType(&ast.TypeName{Name: stmt.Table.Name}); err == nil {
+		return sqlerr.TypeExists(stmt.Table.Name)
+	}
 	oldSchema.Tables = append(oldSchema.Tables[:idx], oldSchema.Tables[idx+1:]...)
 	newSchema.Tables = append(newSchema.Tables, tbl)
 	return nil
@@ -144,6 +147,10 @@ func (c *Catalog) createTable(stmt *ast.CreateTableStmt) error {
 		return nil
 	} else if err == nil {
 		return sqlerr.RelationExists(stmt.Name.Name)
+	}
+	// A table's row type shares the type namespace of its schema
+	if _, _, err := schema.getType(&ast.TypeName{Name: stmt.Name.Name}); err == nil {
+		return sqlerr.TypeExists(stmt.Name.Name)
 	}
 
 	tbl := Table{Rel: stmt.Name, Comment: stmt.Comment}
@@ -246,6 +253,9 @@ func (c *Catalog) renameTable(stmt *ast.RenameTableStmt) error {
 	}
 	if _, _, err := sch.getTable(&ast.TableName{Name: *stmt.NewName}); err == nil {
 		return sqlerr.RelationExists(*stmt.NewName)
+	}
+	if _, _, err := sch.getType(&ast.TypeName{Name: *stmt.NewName}); err == nil {
+		return sqlerr.TypeExists(*stmt.NewName)
 	}
 	if stmt.NewName != nil {
 		tbl.Rel.Name = *stmt.NewName
